@@ -13,6 +13,11 @@
         3 = after feeding every block of the workload + Idle
     final                                   -> ok <tip> <coins> <foreign 0|1> | panic <what>     (uninterrupted run; foreign = its ghost flag,
         the hypothesis `(run bigs ops).foreign = false` of the theorems)
+    libopen <k>                             -> ok <tip> <coins> <tie 0|1> | panic <what> <tie 0|1>
+        NewChainExt in LIBRARY mode (DoNotRescan = false) on the directory left by the first k effects: Model/PersistLib.lean
+        libraryOpen with the guard regenerated from the source (Gen/C07Facts.lean reapplyGuard); tie = equally high leaves
+    lock <file 0|1>                         -> ok <0|1>   does LockDatabaseDir of a process that is alone get the lock when
+        <datadir>/.lock exists (1) / does not exist (0)? (Model/PersistLib.lean lockStart with the regenerated lockOpenMode)
     pos <a 0|1> <L> <tok> …                 -> ok <data file length> <every record reads back its block 0|1> <id>:<fpos>:<blen> …
         positional block store (Model/PersistPos.lean): the directory holds the index records r:<id>:<fpos>:<blen> … and a data
         file of L bytes (anything beyond the indexed data is an orphaned tail); it is opened (LoadBlockIndex + Seek), then
@@ -28,6 +33,7 @@ import GocoinV.Model.Persist
 import GocoinV.Model.PersistSpec
 import GocoinV.Model.PersistPos
 import GocoinV.Model.PersistRoll
+import GocoinV.Model.PersistLib
 import GocoinV.Base.Proto
 open GocoinV GocoinV.Persist
 
@@ -171,6 +177,21 @@ def step (st : OState) (toks : List String) : OState × String :=
       | .ok (s1, s2, s3) =>
         let tie := (farthest s1.n).2.2
         (st, s!"ok {s1.n.tip} {s2.n.tip} {coinsStr s2.n.utxo} {s3.n.tip} {coinsStr s3.n.utxo} {if tie then 1 else 0} {if s3.foreign then 1 else 0}")
+  | ["libopen", k] =>
+    if !st.loaded then (st, "bad-op") else
+    match k.toNat? with
+    | none => (st, "bad-op")
+    | some k =>
+      let d := applyAll {} ((run st.bigs st.ops).es.take k)
+      let tie := match openNode d st.bigs 0 with
+        | .ok s1 => (farthest s1.n).2.2
+        | .error _ => false
+      match libraryOpen GocoinV.Gen.C07Facts.reapplyGuard d st.bigs with
+      | .error e => (st, s!"panic {e.replace " " "_"} {if tie then 1 else 0}")
+      | .ok s => (st, s!"ok {s.n.tip} {coinsStr s.n.utxo} {if tie then 1 else 0}")
+  | ["lock", f] =>
+    if f != "0" && f != "1" then (st, "bad-op") else
+    (st, s!"ok {if lockStart GocoinV.Gen.C07Facts.lockOpenMode (f == "1") then 1 else 0}")
   | ["torn", k, a, b] =>
     if !st.loaded then (st, "bad-op") else
     match k.toNat?, a.toNat?, b.toNat? with
